@@ -6,7 +6,7 @@
     (S3 certified samples + S4), conjugation symmetry of boost's Y_lm (S4). *)
 From Coq Require Import Reals ZArith List Bool Lra Lia.
 From Coquelicot Require Import Coquelicot.
-From LP Require Import Num NumR OrdLaws Gen_C17_Formulas C17_Model C17_Defs C17_Proofs C17_Proofs_Round C17_Proofs_InvErf C17_Proofs_VSH C17_Proofs_Hist C17_Proofs_Series C17_Proofs_Conj.
+From LP Require Import Num NumR OrdLaws Gen_C17_Formulas C17_Model C17_Defs C17_Proofs C17_Proofs_Round C17_Proofs_InvErf C17_Proofs_VSH C17_Proofs_Hist C17_Proofs_Series C17_Proofs_Conj C17_Proofs_Throw.
 Import ListNotations.
 Local Open Scope R_scope.
 
@@ -362,3 +362,45 @@ Proof.
     + replace (- mh =? 0)%Z with false by (symmetry; apply Z.eqb_neq; lia). unfold cscale. cbn. destruct (Z.even mh); f_equal; ring.
   - cbn. intros H. injection H as H. lra.
 Qed.
+
+(** ** the vector-harmonic clauses for a call made at ANY point of a process in which the scalar-harmonic back end may abandon evaluations by
+    throwing (boost reports an overflow that way at very high orders, far beyond l <= 12; the caller may catch and go on).  [Y lh mh = None] = the
+    evaluation of Y_{lh,mh} throws; [Ok None] = the call is abandoned by the exception.  Any number type (doubles included), any coefficient table,
+    any degree and order:
+    (1) if the neighbour evaluations the loops make (l_hat = l -+ 1, m_hat = m - 1 .. m + 1, |m_hat| <= l_hat) all answer, the call returns exactly
+        what the exception-free model [vsh_vector] returns for those values - so the theorems above (Y = rhat Y_lm, Psi = r grad Y_lm, tangential,
+        conjugation) hold for it;
+    (2) if one of them throws (and the table entries exist), the whole call is abandoned: no partial vector is returned;
+    (3) in a history of requests - Vector_Spherical_Harmonics_Y (0), _Psi (1), Spherical_Harmonics (other), answered and abandoned ones mixed -
+        the outcome of every request is the outcome of that request alone, whatever was requested (and abandoned) before or after it. *)
+Theorem C17_vsh_call_refines_when_back_end_answers {T} (Ops : NumOps T) comp (Y : Z -> Z -> option (T * T)) (Yt : Z -> Z -> T * T) (l m : Z) :
+  (forall lh mh, needed l m lh mh -> Y lh mh = Some (Yt lh mh)) ->
+  vsh_vector_x Ops comp Y l m = rsome (vsh_vector Ops comp Yt l m).
+Proof. exact (vector_x_refines Ops comp Y Yt l m). Qed.
+Print Assumptions C17_vsh_call_refines_when_back_end_answers.
+
+Theorem C17_vsh_call_abandoned_when_back_end_throws {T} (Ops : NumOps T) comp (Y : Z -> Z -> option (T * T)) (l m lh mh : Z) :
+  (forall i lh mh, exists c, comp i l m lh mh = Ok c) ->
+  needed l m lh mh -> Y lh mh = None -> vsh_vector_x Ops comp Y l m = Ok None.
+Proof. exact (vector_x_throws Ops comp Y l m lh mh). Qed.
+Print Assumptions C17_vsh_call_abandoned_when_back_end_throws.
+
+Theorem C17_vsh_history_independent_with_throws {T} (Ops : NumOps T) (pre post : list (Z * Z * Z * (Z -> Z -> option (T * T)))) q
+    (outs : list (option (list (T * T)))) :
+  vsh_run_x Ops (pre ++ q :: post) = Ok outs ->
+  length outs = length (pre ++ q :: post) /\ vsh_call_x Ops q = Ok (nth (length pre) outs None).
+Proof. exact (run_x_independent Ops pre post q outs). Qed.
+Print Assumptions C17_vsh_history_independent_with_throws.
+(** non-vacuity: a needed neighbour; an abandoned call over R; a history in which an abandoned request is followed by an answered one *)
+Example C17_vsh_throws_nonvacuous :
+  needed 1700 1605 1699 1606 /\
+  (vsh_vector_x ROps (fun _ _ _ _ _ => Ok (1, 0)) (fun _ mh => if (mh =? 2)%Z then None else Some (1, 0)) 2 1 = Ok None).
+Proof.
+  split; [unfold needed; lia|].
+  apply (vector_x_throws ROps _ _ 2 1 3 2)%Z; [intros; eexists; reflexivity|unfold needed; lia|reflexivity].
+Qed.
+Example C17_vsh_history_with_throw_nonvacuous :
+  let q1 : Z * Z * Z * (Z -> Z -> option (R * R)) := (2%Z, 1700%Z, 1606%Z, fun _ _ => None) in
+  let q2 : Z * Z * Z * (Z -> Z -> option (R * R)) := (2%Z, 1%Z, 1%Z, fun _ _ => Some (1, 0)) in
+  vsh_run_x ROps (q1 :: q2 :: nil) = Ok (None :: Some ((1, 0) :: nil) :: nil).
+Proof. reflexivity. Qed.
